@@ -135,12 +135,17 @@ class Campaign:
                 if action == "replace":       # new contents under a new name (rebuilt by the real builder)
                     if b[1] != newname:
                         self.problem("property", what="SstBuilder's setsum for the rebuilt file differs from the Python computation", built=b[1], python=newname)
-                    if os.path.exists(old):
-                        os.remove(old)
+                    # a re-created name can live in sst/ and in trash/ at once: the file is gone from both
+                    for d in ("sst", "trash"):
+                        if os.path.exists(os.path.join(dst, d, name + ".sst")):
+                            os.remove(os.path.join(dst, d, name + ".sst"))
                     os.rename(tmp, os.path.join(dst, where, newname + ".sst"))
                     self.model.cmd("rmfile %s" % name)
                     self.model.cmd("file %s %s" % (newname, self.run.ents_str(ents)))
-                elif action == "inplace":     # new contents under the old name
+                elif action == "inplace":     # new contents under the old name (both incarnations, see above)
+                    other = os.path.join(dst, "trash" if where == "sst" else "sst", name + ".sst")
+                    if os.path.exists(other):
+                        shutil.copyfile(tmp, other)
                     os.replace(tmp, old)
                     self.model.cmd("file %s %s" % (name, self.run.ents_str(ents)))
             out = self.tool.cmd("verify %s 1 %s" % (dst, " ".join(self.run.opts)), multi=True)
@@ -246,7 +251,8 @@ class Campaign:
                     must = e >= 1 or f == "O"
                     todo.append(("digit", fid, e, f, nth, must))
         # digits
-        picks = todo if exhaustive else [rng.choice(todo) for _ in range(budget)]
+        # exhaustive: every digit position of a sample of fields; else one random position per pick
+        picks = [rng.choice(todo) for _ in range(12 if exhaustive else budget)]
         for (_, fid, e, f, nth, must) in picks:
             positions = range(64) if exhaustive else [rng.below(64)]
             for pos in positions:
@@ -260,7 +266,7 @@ class Campaign:
                     for i, name in enumerate(sorted(ed.adds)):
                         if name in self.run.files and self.run.files[name]:
                             outs.append((fid, e, i, name, bool(ed.rms)))
-        for _ in range(budget if not exhaustive else 4 * budget):
+        for _ in range(budget if not exhaustive else 2 * budget):
             if not outs:
                 break
             fid, e, i, name, is_compaction = rng.choice(outs)
